@@ -244,6 +244,11 @@ def run(ctx):
                           '%s: Ni is the nonce of our own outstanding request' % fi.name, key=('O3', q, 'nonce'), site=ctx.site(fi, c.node),
                           detail={'found': tq.text(b['nonce']) if 'nonce' in b else None})
     successor_construction(ctx, 'O3')
+    # g^ir itself: both peers feed the same octets into SKEYSEED / KEYMAT only if the shared secret and the public values have the
+    # fixed width of the group on both sides (a value with leading zero octets must keep them)
+    from .c04 import check_primes, check_ecdh
+    check_primes(ctx, 'O3', 'O3')
+    check_ecdh(ctx, 'O3')
 
     # ---------------------------------------------------------------- O4
     gc = ctx.func(IKESA + '.generate_child_sa_key_material')
